@@ -180,7 +180,7 @@ def classify(what):
 
 
 def random_case(rng):
-    L = rng.choice([0, 1, 2, 3, 5, 8, 13, 21, 34, 64])
+    L = rng.choice([0, 1, 2, 3, 5, 8, 13, 21, 34, 64]) if rng.random() < 0.99 else rng.choice([255, 256, 257, 65535, 65536, 65537, 70001])
     dens = rng.choice([0.0, 0.05, 0.2, 0.5, 0.9])
     data = bytes(0xFF if rng.random() < dens else rng.choice([rng.randrange(256), 0, 1, 0xFE, 0x7E, 0x41]) for _ in range(L))
     script = []
@@ -189,9 +189,9 @@ def random_case(rng):
         if r < 0.45:
             script.append(rng.choice(OPS[:5] + [("get_string",), ("get_encoded_string",)]))
         elif r < 0.55:
-            script.append(("get_bytes", rng.choice([0, 1, 2, 3, 7, 100])))
+            script.append(("get_bytes", rng.choice([0, 1, 2, 3, 7, 100, 255, 256, 65536, 10 ** 9])))
         elif r < 0.7:
-            script.append((rng.choice(["get_fixed_string", "get_fixed_encoded_string"]), rng.choice([0, 1, 2, 3, 5, 12, 70]), rng.random() < 0.5))
+            script.append((rng.choice(["get_fixed_string", "get_fixed_encoded_string"]), rng.choice([0, 1, 2, 3, 5, 12, 70, 254, 256, 65537]), rng.random() < 0.5))
         elif r < 0.82:
             script.append(("mode", rng.random() < 0.6))
         elif r < 0.92:
